@@ -59,6 +59,26 @@ def det33 : List KAcc := [2, 1, 0, 3, 5, 4, 7, 6, 8, 6, 7, 8, 4, 5, 3, 2, 0, 1].
 def dc33f : List KAcc := [ld 0 0 8, ld 1 0 8, el 0 8, el 1 8]
 def dc33d : List KAcc := [ld 0 0 4, ld 1 0 4, ld 0 4 4, ld 1 4 4, el 0 8, el 1 8]
 
+
+/-! ### kernels whose extent is a whole number of vectors (2x2, 4x4) and the double 3x3 transpose -/
+
+/-- `_transpose<double,3,3>`: `vw`-lane loads/stores covering elements 0..7 (`vw = 2` SSE, `4` AVX, `8` AVX-512), then
+    element 8 through `load_sd/store_sd` -/
+def transpose33d (vw : Nat) : List KAcc :=
+  (List.range (8 / vw)).map (fun i => ld 0 (i * vw) vw) ++ (List.range (8 / vw)).map (fun i => st (i * vw) vw) ++ [el 0 8, wr 8]
+/-- `_transpose<float,2,2>`, `_inverse<float,2>`: one 4-lane load, one 4-lane store -/
+def unary4f : List KAcc := [ld 0 0 4, st 0 4]
+/-- `_inverse<double,2>`, `_transpose<double,2,2>` (SSE form): two 2-lane loads, two 2-lane stores -/
+def unary4d : List KAcc := [ld 0 0 2, ld 0 2 2, st 0 2, st 2 2]
+/-- `_transpose<float,4,4>`: four 4-lane rows (SSE/AVX) or one 16-lane register (AVX-512) -/
+def transpose44f (avx512 : Bool) : List KAcc :=
+  if avx512 then [ld 0 0 16, st 0 16] else [ld 0 0 4, ld 0 4 4, ld 0 8 4, ld 0 12 4, st 0 4, st 4 4, st 8 4, st 12 4]
+/-- `_matmul<float,2,2,2>` -/
+def matmul222f : List KAcc := [ld 0 0 4, ld 1 0 4, st 0 4]
+/-- `_matmul<float,4,4,4>`: rows of `b` as 4-lane loads, every `a[i]` broadcast, four row stores -/
+def matmul444f : List KAcc :=
+  [ld 1 0 4, ld 1 4 4, ld 1 8 4, ld 1 12 4] ++ (List.range 16).map (el 0) ++ [st 0 4, st 4 4, st 8 4, st 12 4]
+
 /-- element offsets of operand `opnd` read (`w = false`) or written (`w = true`), in order -/
 def offsets (k : List KAcc) (opnd : Nat) (w : Bool) : List Nat :=
   (k.filter fun x => x.opnd == opnd && x.write == w).flatMap fun x => x.lanes.map (x.off + ·)
